@@ -45,6 +45,25 @@ PROFILES = {
     'C19': gen.profile(p_rec=0.1),
 }
 
+FLOORS = {'C04': {'dup_request': 300}}
+_COMMON = ('grammar-generated pipelines (3-14 nodes; Input / SwitchCase / InputOneOf / RecurrentSubGraph marks, shared nodes, mark-less nodes, '
+           'retry/default settings, literal None/falsy returns, failure plans that depend on the run input; async / thread / inline / process '
+           'modes on virtual executors; ~20%% of programs additionally inject candidate-returns-None or unknown-switch-label) x 2 inputs x '
+           'seeded completion schedules on the virtual loop (random with batched delivery 1-4 per iteration, PCT d<=3, fifo, lifo, starve-one '
+           'node, eager delivery probability 0-0.9, timer bias; 16 workers with different PYTHONHASHSEEDs). %s A case is non-trivial if the '
+           'program contains the property\'s construct (where one is named) and its schedule had >= 2 choice points with >= 2 options; '
+           'distinct = distinct hash of (program, input, controller parameters).')
+RULES = {
+    'C01': _COMMON % 'Oracle: PipelineResult (value equality on provenance terms / admissible error) vs the reference; one outcome class per (program, input) across schedules.',
+    'C03': _COMMON % 'Profile: recurrent x2, sharing x1.25, event callbacks that suspend. Oracle: keyword set and values of every body invocation vs the reference\'s expected invocations.',
+    'C04': _COMMON % 'Profile: 70%% of programs have a node requested from >= 2 sub-pipeline scopes, event callbacks suspend with p in {0.3,0.7,1}. Oracle: body invocations per (node, arguments) <= expected attempts; floor on observed duplicate-request arrivals.',
+    'C05': _COMMON % 'Profile: 35%% failing nodes. Oracle: error identity in the admissible-cause set; nothing escapes chart.run.',
+    'C09': _COMMON % 'Profile: switch-heavy. Oracle: selected-case value routed, never-demanded nodes never start.',
+    'C10': _COMMON % 'Profile: one-of-heavy with failing candidates. Oracle: first non-failing candidate wins, laziness, containment, OneOfDoesNotHaveResultError.',
+    'C11': _COMMON % 'Profile: recurrent-heavy, requested iterations 0..max+1, default on/off. Oracle: per-epoch invocations incl. additional_data, get_default arguments, final value to consumers.',
+    'C14': _COMMON % 'Profile: retries and failures. Oracle: lifecycle-event grammar merged with the body trace.',
+    'C19': _COMMON % 'A recording write-once artifact store is registered (saves suspend with p 0 / 0.5). Oracle: one save per executed node, value = final value, no marker / exception saved, store never fails a correct run.',
+}
 FEATURE = {  # construct a program must contain to count as non-trivial for the property
     'C09': 'sw', 'C10': 'oneof', 'C11': 'rec', 'C12': 'retry',
 }
@@ -119,6 +138,12 @@ def work_generic(prop, tier, seed, widx, nworkers):
     feat = FEATURE.get(prop)
     for _ in range(nprog):
         prog = gen_prog(rng, prop)
+        if prop == 'C04' and rng.random() < 0.7:
+            # at-most-once is about nodes requested from several sub-pipeline scopes: prefer such programs
+            for _try in range(8):
+                if 'node_in_two_scopes' in prog['tags']:
+                    break
+                prog = gen_prog(rng, prop)
         _tagcount(acc, prog)
         acc.programs += 1
         fts = gen.features(prog)
